@@ -25,7 +25,7 @@ pub mod verif_hook {
     thread_local! {
         pub static UNDELEGATION_PASSES: Cell<u64> = Cell::new(0);
     }
-    pub const PASS_LIMIT: u64 = 64;
+    pub const PASS_LIMIT: u64 = 10_000;
 }
 
 pub fn calculate_delegations(
